@@ -212,6 +212,7 @@ PROPS["C14"] = {
         {"name": "memory-qos", "pkg": "./cmd/plugins/memory-qos", "run": "^TestVerifSideMemoryQos$", "replay_run": "^TestVerifSideMemoryQosReplay$", "q": 1500, "t": 160000},
         {"name": "memtierd", "pkg": "./cmd/plugins/memtierd", "run": "^TestVerifSideMemtierd$", "replay_run": "^TestVerifSideMemtierdReplay$", "q": 1500, "t": 160000},
         {"name": "sgx-epc", "pkg": "./cmd/plugins/sgx-epc", "run": "^TestVerifSideSgxEpc$", "replay_run": "^TestVerifSideSgxEpcReplay$", "q": 1500, "t": 160000},
+        {"name": "fuzz-annotations", "pkg": "./pkg/resmgr", "fuzz": "FuzzVerifC14Annotations", "fuzztime": 120},
     ],
     "floor_q": 20, "floor_t": 1000,
 }
@@ -239,6 +240,7 @@ PROPS["C19"] = {
     "units": [
         {"name": "expressions", "pkg": "./pkg/resmgr/cache", "run": "^TestVerifC19Expressions$", "replay_run": "^TestVerifC19ExpressionsReplay$", "q": 20000, "t": 3200000},
         {"name": "balloon-types", "pkg": "./pkg/resmgr", "run": "^TestVerifC19Types$", "replay_run": "^TestVerifC19TypesReplay$", "q": 300, "t": 48000, "per_proc": 500},
+        {"name": "fuzz-expressions", "pkg": "./pkg/resmgr/cache", "fuzz": "FuzzVerifC19", "fuzztime": 90},
     ],
     "floor_q": 1000, "floor_t": 50000,
 }
